@@ -427,7 +427,7 @@ func (e *Environment) CreateOrSet(name string, val Object, create bool) Object {
 		old, ok := e.Get(name) // not ok
 		if ok {
 			log.Infof("Attempt to change constant %s from %v to %v", name, old, val)
-			if !Equals(Value(old), val) { // the existing binding may be seen through a reference (outer scope).
+			if !sameConstant(Value(old), val) { // the existing binding may be seen through a reference (outer scope).
 				return Error{Value: fmt.Sprintf("attempt to change constant %s from %s to %s", name, old.Inspect(), val.Inspect())}
 			}
 		}
@@ -436,6 +436,19 @@ func (e *Environment) CreateOrSet(name string, val Object, create bool) Object {
 		return Error{Value: fmt.Sprintf("attempt to change internal function %s to %s", name, val.Inspect())}
 	}
 	return e.SetNoChecks(name, val, create)
+}
+
+// sameConstant tells if binding a constant again, to val, leaves it what it was: equal is not enough,
+// 0.0 == -0.0 and two closures with the same text are equal too.
+func sameConstant(old, val Object) bool {
+	if !Equals(old, val) {
+		return false
+	}
+	if of, ok := old.(Function); ok {
+		vf, _ := val.(Function)
+		return of.Env == vf.Env // same text and same captured scope.
+	}
+	return old.Inspect() == val.Inspect()
 }
 
 func NewEnclosedEnvironment(outer *Environment) *Environment {
